@@ -252,7 +252,7 @@ impl Scope {
         };
         let mut seen: HashSet<String> = HashSet::new();
         let mut wf = vec![];
-        for p in progs::default_programs(100000) {
+        for p in progs::default_programs(100000).into_iter().chain(progs::shape_programs()) {
             if seen.insert(p.to_did()) {
                 wf.push(p);
             }
